@@ -76,7 +76,7 @@ func DriveTree(r *rec.Rec, rng *rand.Rand, run, ops int, variant string) {
 		kind = p[0]
 		U, _ = strconv.Atoi(p[1])
 		for _, f := range p[2:] {
-			noShape = noShape || f == "noshape"     // C01/C02 traces: no structural logging
+			noShape = noShape || f == "noshape"       // C01/C02 traces: no structural logging
 			cleanIter = cleanIter || f == "cleaniter" // C01: iterators are drained at once, no mutation in between
 		}
 	}
@@ -84,6 +84,10 @@ func DriveTree(r *rec.Rec, rng *rand.Rand, run, ops int, variant string) {
 	if kind == "sweep" {
 		sweepRun = run
 		kind = []string{"int", "cmp", "set"}[(run/2)%3]
+	}
+	cascade := kind == "cascade"
+	if cascade {
+		kind = []string{"int", "cmp", "set"}[run%3]
 	}
 	if kind == "mix" {
 		kind = []string{"int", "cmp", "rev", "str", "set", "setcmp", "zero"}[run%7]
@@ -109,6 +113,7 @@ func DriveTree(r *rec.Rec, rng *rand.Rand, run, ops int, variant string) {
 		shapeEvery = 16
 	}
 	muts := 0
+	shapeNow := false // cascade: the structure is logged after every mutation of the steered phase only
 	dead := false
 	present := map[int]bool{} // classes present (driver's own bookkeeping to steer, never to judge)
 	emit := func(name string, args []int, res any, withShape bool, extra map[string]any) {
@@ -118,7 +123,7 @@ func DriveTree(r *rec.Rec, rng *rand.Rand, run, ops int, variant string) {
 		}
 		if withShape && !noShape {
 			muts++
-			if muts%shapeEvery == 0 {
+			if (muts%shapeEvery == 0 && !cascade) || shapeNow {
 				var s ShapeInt
 				if msg := rec.Try(func() { s = sh.ShapeInt() }); msg != "" {
 					ev["op"], ev["panic"] = "PANIC reading shape after "+name, msg
@@ -313,6 +318,62 @@ func DriveTree(r *rec.Rec, rng *rand.Rand, run, ops int, variant string) {
 		return c
 	}
 
+	// ---- kind "cascade": steer by the structure itself - make a chosen child (run%16) of an exactly full inner node split,
+	// first with the root as that node (the tree grows a level), then with an inner node below the root
+	if cascade {
+		fullInner := func(level int) (ShapeInt, int) {
+			s := sh.ShapeInt()
+			for i, nd := range s.Nodes {
+				if !nd.Leaf && nd.N == 15 && nd.Level == level && s.Nodes[nd.Children[0]].Leaf {
+					return s, i
+				}
+			}
+			return s, -1
+		}
+		for round := 0; round < 2 && !dead; round++ {
+			s, at := fullInner(round)
+			for tries := 0; at < 0 && tries < 4000 && !dead; tries++ {
+				put(1 + rng.Intn(U))
+				s, at = fullInner(round)
+			}
+			if at < 0 {
+				break
+			}
+			j := (run / (1 + 15*round)) % 16
+			nd := s.Nodes[at]
+			lo, hi := 0, U+1
+			if j > 0 {
+				lo = nd.Keys[j-1]
+			}
+			if j < nd.N {
+				hi = nd.Keys[j]
+			}
+			// fill child j until the inner node has split (it is no longer full)
+			shapeNow = true
+			for tries := 0; tries < 40 && !dead; tries++ {
+				free := []int{}
+				for k := lo + 1; k < hi; k++ {
+					if !present[cls(k)] {
+						free = append(free, k)
+					}
+				}
+				if len(free) == 0 {
+					break
+				}
+				put(free[rng.Intn(len(free))])
+				if s2 := sh.ShapeInt(); len(s2.Nodes) > at && (s2.Nodes[at].N != 15 || s2.Nodes[at].Level != round) {
+					break
+				}
+			}
+			shapeNow = false
+		}
+		// a short drain through the nodes that have just split (parent links, cleared slots), then the run ends
+		shapeNow = true
+		for n := 0; n < ops && !dead && len(present) > 0; n++ {
+			del(anyPresent())
+		}
+		return
+	}
 	// ---- phase 1: a fill pattern up to a node-capacity boundary
 	bounds := []int{15, 16, 17, 31, 127, 128, 129, 255, 256, 257}
 	target := bounds[rng.Intn(len(bounds))]
